@@ -344,7 +344,13 @@ def analyse():
                     else:
                         info.effects.add("unknownCall")
                         info.notes.append("call %s" % f.id)
+            elif isinstance(n, ast.Name) and n.id in ("lru_cache", "cache", "cached_property"):
+                info.effects.add("hiddenState")
+                info.notes.append("uses functools.%s" % n.id)
             elif isinstance(n, ast.Attribute):
+                if n.attr in ("lru_cache", "cache", "cached_property"):
+                    info.effects.add("hiddenState")
+                    info.notes.append("uses functools.%s" % n.attr)
                 r = root_name(n)
                 cls_ = class_of.get(info.qual)
                 if (cls_ and isinstance(n.value, ast.Name) and n.value.id == "self"
@@ -427,13 +433,16 @@ def generate():
     out += fixed
     out += ["]", "",
             "/-- the public sun and moon functions (sun.__all__, moon.__all__, moon angles) -/",
-            "def publicFns : List Nat := [%s]" % ", ".join(str(idx[p]) for p in pub),
+            "def publicFns : List Nat := [%s]" % ", ".join(
+                [str(idx[p]) for p in pub] + [str(idx[m + ".<module>"]) for m in (
+                    "astral", "astral.sun", "astral.moon", "astral.julian", "astral.sidereal")
+                    if m + ".<module>" in idx]),
             "",
             "/-- the public geocoder functions (module-level, not underscore-prefixed) -/",
             "def geoFns : List Nat := [%s]" % ", ".join(
                 str(idx[n]) for n in names
-                if n.startswith("astral.geocoder.") and not n.split(".")[-1].startswith("_")
-                and not n.endswith("<module>")),
+                if (n.startswith("astral.geocoder.") and not n.split(".")[-1].startswith("_")
+                    and not n.endswith("<module>")) or n in ("astral.geocoder.<module>", "astral.<module>")),
             "",
             "/-- the functions of astral.julian and the time-unit helpers of astral/__init__ -/",
             "def julianFns : List Nat := [%s]" % ", ".join(
@@ -441,20 +450,21 @@ def generate():
                 if (n.startswith("astral.julian.") or n in (
                     "astral.hours_to_time", "astral.time_to_hours", "astral.time_to_seconds",
                     "astral.minutes_to_timedelta", "astral.now", "astral.today"))
-                and not n.endswith("<module>") and n not in ("astral.now", "astral.today")),
+                and not n.endswith("<module>") and n not in ("astral.now", "astral.today")
+                or n in ("astral.julian.<module>", "astral.<module>")),
             "",
             "/-- every method of `Location` that is a query: not `__init__`, not a property setter -/",
             "def locationQueryFns : List Nat := [%s]" % ", ".join(
                 str(idx[n]) for n in names
-                if n.startswith("astral.location.Location.") and not n.endswith(".setter")
-                and not n.endswith(".__init__")),
+                if (n.startswith("astral.location.Location.") and not n.endswith(".setter")
+                    and not n.endswith(".__init__")) or n == "astral.location.<module>"),
             "",
             "/-- the coordinate front end: dms_to_float and the validating `__setattr__`s -/",
             "def coordFns : List Nat := [%s]" % ", ".join(
                 str(idx[n]) for n in names
                 if n in ("astral.dms_to_float", "astral.Observer.__setattr__", "astral.LocationInfo.__setattr__",
                          "astral.LocationInfo.observer", "astral.LocationInfo.tzinfo",
-                         "astral.LocationInfo.timezone_group")),
+                         "astral.LocationInfo.timezone_group", "astral.<module>")),
             "", "end Astral.Gen", ""]
     text = "\n".join(out)
     os.makedirs(os.path.dirname(OUT), exist_ok=True)
